@@ -1,9 +1,198 @@
 import Olla.Driver.Util
+import Olla.Model.Streaming
+import Olla.Spec.C18
 
+/-!
+C18 driver. One case = one scenario played in real time by the timing harness (times in µs since the
+scenario's T0), or one leak measurement of a batch.
+
+The model is run on the schedule THE BACKEND RECORDED (actual send times), not on the planned one, so that
+scheduling delays of the harness itself cannot masquerade as engine behaviour. Pauses are classified
+`short` (≤ T − 40 ms), `long` (≥ T + 100 ms) or ambiguous; a case with an ambiguous pause is not judged.
+Durations are compared against bounds with 100 ms slack, never exactly.
+-/
 namespace Olla.Driver.C18
-open Lean Olla.Driver
+open Lean Olla.Driver Olla.Model.Streaming Olla.Spec.C18
 
-/-- placeholder until the C18 driver is written -/
-def main : IO Unit := pure ()
+def slackUs : Int := 100000
+def shortMarginUs : Int := 40000
+def graceUs : Int := 1000000
+/-- below this many buffered bytes net/http's server holds everything back until a Flush or the handler returns -/
+def serverHoldsBelow : Nat := 2048
+
+structure Sc where
+  engine : String
+  profile : String
+  forced : Bool
+  ct : String
+  pre : String
+  steps : List (Int × Nat)   -- planned (gap µs, size)
+  ending : String
+  endGapUs : Int
+  abortBytes : Int
+  abortMs : Int
+  T : Int
+  ackUs : Int
+
+def parseSc (j : Json) : Sc :=
+  { engine := jstr (jget j "engine"), profile := jstr (jget j "profile"), forced := jbool (jget j "forced"), ct := jstr (jget j "ct"),
+    pre := jstr (jget j "pre"), steps := (jarr (jget j "steps")).map (fun s => (jint (jget s "gap_ms") * 1000, jnat (jget s "size"))),
+    ending := jstr (jget j "ending"), endGapUs := jint (jget j "end_gap_ms") * 1000,
+    abortBytes := jint (jget j "abort_bytes"), abortMs := jint (jget j "abort_ms"),
+    T := jint (jget j "timeout_ms") * 1000, ackUs := jint (jget j "ack_ms") * 1000 }
+
+def fillOf (k : Nat) : Nat := 97 + k % 26
+
+def outcomeStr : Option Outcome → String
+  | none => "never"
+  | some .complete => "complete"
+  | some .upstreamError => "upstreamError"
+  | some .readTimeout => "readTimeout"
+  | some .clientGone => "clientGone"
+
+def enumFrom {α : Type} : Nat → List α → List (Nat × α)
+  | _, [] => []
+  | n, x :: xs => (n, x) :: enumFrom (n + 1) xs
+
+def handleScenario (case : Nat) (j : Json) : IO Unit := do
+  let sc := parseSc (jget j "scenario")
+  let impl := jget j "impl"
+  if jstr (jget impl "start_err") != "" then
+    emit case false true "start-error" "" (jstr (jget impl "start_err")); return
+  let be := jget impl "backend"
+  let cl := jget impl "client"
+  let got := jbool (jget be "got")
+  let hdrUs := jint (jget be "hdr_us")
+  let chunksJ := jarr (jget be "chunks")
+  let endKind := jstr (jget be "end_kind")
+  let endUs := jint (jget be "end_us")
+  let tornUs := jint (jget be "torn_us")
+  let cEnd := jstr (jget cl "end")
+  let cEndUs := jint (jget cl "end_us")
+  let cStatus := jnat (jget cl "status")
+  let cAbortUs := jint (jget cl "abort_us")
+  let cRle : RLE := (jarr (jget cl "rle")).map (fun p => match jarr p with | [a, b] => (jnat a, jnat b) | _ => (0, 0))
+  let aborted := cEnd == "aborted"
+  if !got then
+    emit case false true "request-never-reached-backend" "" s!"client status {cStatus} end {cEnd}"; return
+  -- what the backend actually sent, when
+  let sent : List Sent := (enumFrom 0 chunksJ).map (fun (k, c) =>
+    { t := jint (jget c "send_us"), fill := fillOf k, size := (sc.steps.getD k (0, 0)).2, acked := jbool (jget c "acked") })
+  let nSent := sent.length
+  -- the configured profile as it reaches the engine
+  let effProfile := if sc.forced then sc.profile else wiredProfile activeWiring sc.profile
+  let st := (streams effProfile sc.ct false).getD true
+  let must := mustStream sc.profile sc.ct
+  let torn : Option Int := if tornUs ≥ 0 then some tornUs else none
+  -- ---------------------------------------------------------------- stall before any header
+  if sc.pre == "stall" || hdrUs < 0 then
+    -- neither engine puts a deadline on the wait for response headers (no ResponseHeaderTimeout; read_timeout
+    -- only governs body reads): the model has no loop to run. Observed, compared, not demanded by the property text.
+    if aborted then
+      let ok := abortOK (graceUs + slackUs) cAbortUs torn
+      emit case (abortOK slackUs cAbortUs torn) ok s!"{sc.engine}.before-headers.abort" (if ok then "" else s!"{sc.engine}-abort-not-propagated")
+        s!"client aborted at {cAbortUs}us before any header; backend saw teardown at {tornUs}us"
+    else
+      let hung := endKind == "released"
+      emit case hung true s!"{sc.engine}.before-headers.stall" "" s!"backend held the request without answering: end_kind {endKind} at {endUs}us, client end {cEnd} status {cStatus} at {cEndUs}us (no deadline applies before headers)"
+    return
+  -- ---------------------------------------------------------------- recorded schedule for the model
+  let sendTimes := sent.map (·.t)
+  let lastT := sendTimes.getLast?.getD hdrUs
+  let recGaps : List Int := ((hdrUs :: sendTimes).zip sendTimes).map (fun (a, b) => b - a)
+  let doneEv : List (Int × Ev (Nat × Nat)) :=
+    if nSent < sc.steps.length then
+      -- the backend was interrupted (torn) before it sent step nSent: the model sees the PLANNED rest
+      let lastAcked := (sent.getLast?.map (·.acked)).getD true
+      (enumFrom nSent (sc.steps.drop nSent)).map (fun (k, (g, sz)) =>
+        ((if k == nSent && !lastAcked && g < sc.ackUs then sc.ackUs else g), Ev.chunk [(fillOf k, sz)])) ++ [(sc.endGapUs, Ev.stallForever)]
+    else match endKind with
+      | "eof" => [(endUs - lastT, Ev.eof)]
+      | "reset" => [(endUs - lastT, Ev.err)]
+      | _ => (if sc.ending == "stall" then [(0, Ev.stallForever)] else
+          [((if sc.endGapUs < sc.ackUs && !((sent.getLast?.map (·.acked)).getD true) then sc.ackUs else sc.endGapUs),
+            if sc.ending == "eof" then Ev.eof else Ev.err)])
+  let sched : Sched (Nat × Nat) := ((recGaps.zip sent).map (fun (g, c) => (g, Ev.chunk [(c.fill, c.size)]))) ++ doneEv
+  let ab : Option Abort := if aborted then some ⟨cAbortUs, some 0⟩ else none
+  let r := if sc.engine == "sherpa" then sherpaLoop sc.T graceUs st ab hdrUs sched else ollaLoop active sc.T st ab hdrUs sched
+  let mWritten : RLE := rleNorm (written (outs r.out))
+  let mWrites := (r.out.filter (fun e => match e.2 with | .write _ => true | _ => false)).length
+  -- ---------------------------------------------------------------- timing classification
+  let allGaps := recGaps ++ (match endKind with | "eof" => [endUs - lastT] | "reset" => [endUs - lastT] | _ => [])
+  let ambiguous := allGaps.any (fun g => g > sc.T - shortMarginUs && g < sc.T + slackUs)
+  let allShort := allGaps.all (fun g => g ≤ sc.T - shortMarginUs)
+  if ambiguous then
+    emit case true true "timing-ambiguous" "" s!"a recorded pause falls between T-40ms and T+100ms: {allGaps}"; return
+  -- ---------------------------------------------------------------- implementation's outcome class
+  let hung := endKind == "released"
+  let clientEnded := cEnd == "clean" || cEnd == "closed" || cEnd == "reset"
+  let implClass :=
+    if aborted then (if torn.isSome then "clientGone" else "abort-ignored")
+    else if hung then "never"
+    else if endKind == "eof" && clientEnded then "complete"
+    else if endKind == "reset" && clientEnded then "upstreamError"
+    else if endKind == "torn" && clientEnded then "readTimeout"
+    else s!"unclassified({endKind},{cEnd})"
+  -- a client abort is triggered BY a chunk arriving, so it can race with whatever the backend does in the next few ms
+  let nearAbort := aborted && r.outcome.isSome && (r.endT - cAbortUs ≤ 20000) && (cAbortUs - r.endT ≤ 20000)
+  let classAgree := implClass == outcomeStr r.outcome || (implClass == "clientGone" && nearAbort)
+  -- bytes
+  let bytesAgree := if aborted then rlePrefix (rleNorm cRle) mWritten else rleNorm cRle == mWritten
+  -- liveness, for the chunks the model relayed
+  let relayed := (sent.take mWrites).filter (fun c => !aborted || c.acked || c.t + sc.ackUs < cAbortUs)
+  let cum := (relayed.foldl (fun (acc : Nat × List Nat) c => (acc.1 + c.size, acc.2 ++ [acc.1 + c.size])) (0, [])).2
+  let liveAgree :=
+    if st then relayed.all (·.acked)
+    else ((relayed.zip cum).all (fun (c, n) => n > serverHoldsBelow || !c.acked ||
+      -- the response ended inside this chunk's ack window: the server's final flush delivers it "in time"
+      (r.outcome.isSome && r.endT ≤ c.t + sc.ackUs + 20000)))
+  -- end time
+  let timeAgree := match r.outcome with
+    | none => true
+    | some .clientGone => abortOK slackUs cAbortUs torn
+    | some _ => if aborted then abortOK slackUs cAbortUs torn else clientEnded && (cEndUs - r.endT ≤ slackUs) && (r.endT - cEndUs ≤ slackUs)
+  let agree := classAgree && bytesAgree && liveAgree && timeAgree
+  -- ---------------------------------------------------------------- the property on the implementation's output
+  -- chunks that were due while the stream was live: sent before the first long pause and before the abort
+  let liveCount := ((recGaps.zip sent).takeWhile (fun (g, c) => g ≤ sc.T - shortMarginUs && (!aborted || c.t + sc.ackUs < cAbortUs))).length
+  let due := sent.take liveCount
+  let s1 := liveOK must due
+  let completed := sc.ending == "eof" && endKind == "eof" && allShort && !aborted && nSent == sc.steps.length
+  let s2 := wholeOK completed sent (cEnd == "clean") cStatus cRle
+  let fin : Option Int := if hung || !clientEnded then none else some cEndUs
+  let s3 := aborted || stallOK (sc.T + slackUs) hdrUs sendTimes fin
+  let s4 := !aborted || abortOK (graceUs + slackUs) cAbortUs torn
+  let spec := s1 && s2 && s3 && s4
+  let sig :=
+    if spec then ""
+    else if !s3 then s!"{sc.engine}-stall-unnoticed"
+    else if !s1 then (if !sc.forced && sc.profile == "streaming" && !mustStream "auto" sc.ct then "configured-streaming-profile-ignored" else s!"{sc.engine}-chunk-not-live")
+    else if !s2 then s!"{sc.engine}-completed-stream-not-whole"
+    else s!"{sc.engine}-abort-not-propagated"
+  let branch := s!"{sc.engine}.{outcomeStr r.outcome}.{if st then "live" else "buffered"}" ++ (if aborted then ".abort" else "") ++
+    (if allGaps.any (fun g => g ≥ sc.T + slackUs) then ".long-pause" else "")
+  let note :=
+    if spec && agree then "" else
+      s!"{sc.engine} profile {sc.profile}{if sc.forced then "(forced)" else "(wired)"} {sc.ct} T={sc.T}us: pauses {allGaps}us, ending {sc.ending}; " ++
+      s!"impl: class {implClass}, client end '{cEnd}' at {cEndUs}us status {cStatus} bytes {rleLen cRle}, acks {sent.map (·.acked)}, backend end '{endKind}' at {endUs}us torn {tornUs}us; " ++
+      s!"model({if sc.engine == "olla" then reprStr active else "sherpa"}): {outcomeStr r.outcome} at {r.endT}us, {mWrites} writes {rleLen mWritten} bytes, streaming={st}; " ++
+      s!"clauses live={s1} whole={s2} stall={s3} abort={s4}; agree class={classAgree} bytes={bytesAgree} live={liveAgree} time={timeAgree}"
+  emit case agree spec branch sig note
+    (Json.mkObj [("outcome", toJson (outcomeStr r.outcome)), ("end_us", toJson r.endT), ("writes", toJson mWrites), ("streaming", toJson st)])
+
+def handleLeak (case : Nat) (j : Json) : IO Unit := do
+  let i := jget j "impl"
+  let ok := leakOK (jint (jget i "go_base")) (jint (jget i "go_after")) (jint (jget i "conns_base")) (jint (jget i "conns_after"))
+  emit case true ok "leak-measurement" (if ok then "" else "leak-at-quiescence")
+    (if ok then "" else s!"after {jnat (jget i "scenarios")} scenarios and {jint (jget i "settle_ms")}ms settling: goroutines {jint (jget i "go_base")} -> {jint (jget i "go_after")}, open backend connections {jint (jget i "conns_base")} -> {jint (jget i "conns_after")}")
+
+def handle (j : Json) : IO Unit := do
+  let case := jnat (jget j "case")
+  match jstr (jget j "kind") with
+  | "scenario" => handleScenario case j
+  | "leak" => handleLeak case j
+  | k => emit case false true "unknown-kind" "" k
+
+def main : IO Unit := do forLines (← IO.getStdin) handle
 
 end Olla.Driver.C18
